@@ -516,6 +516,9 @@ func (e *Engine) newObject(st *State, t types.Type) *Term {
 		}
 	}
 	st.heap.write(&Loc{Prefix: typeName(t) + "|", Keys: []*Term{id}}, t, zeroVal(t))
+	if typeName(t) == "math/big.Int" {
+		bigSet(st, id, IntC(0))
+	}
 	return id
 }
 
